@@ -39,6 +39,11 @@ def shapes():
     return res
 
 
+def base_name(i):
+    # every other input has a dot inside its base name: default output names replace only the last extension
+    return 'in%d' % i if i % 2 else 'in%d.part.v2' % i
+
+
 def plan(mode, combo, with_o):
     """-> (legal, steps, outputs_per_input, final_output)  steps: list of (role, input index)"""
     n = len(combo)
@@ -46,7 +51,7 @@ def plan(mode, combo, with_o):
     steps = []
     outs = []
     for i, k in enumerate(combo):
-        base = 'in%d' % i
+        base = base_name(i)
         o = None
         if k == 'c':
             steps.append(('cc1', i))
@@ -80,7 +85,7 @@ def run_scenario(a):
     names = []
     main_at = 0
     for i, k in enumerate(combo):
-        nm = 'in%d.%s' % (i, k)
+        nm = '%s.%s' % (base_name(i), k)
         names.append(nm)
         src = c_src(i, main=(mode == 'link' and i == main_at), bad=('codegen' if natural == ('codegen', i) else natural == ('syntax', i)), pp=(mode == 'E'))
         p = os.path.join(d, nm)
@@ -157,6 +162,34 @@ def shape_name(mode, combo, with_o):
     return '%s%s(%s)' % (mode, '-o' if with_o else '', ''.join(combo))
 
 
+def sigchld_cases(ctx, cc, work):
+    """The driver started with SIGCHLD ignored (children are reaped by the kernel, wait() fails with ECHILD): it cannot learn
+    the exit status of its children, so it must not report success for a command one of whose steps failed."""
+    d = os.path.join(work, 'sigchld')
+    os.makedirs(d)
+    open(os.path.join(d, 'good.c'), 'w').write('int main(void) { return 0; }\n')
+    open(os.path.join(d, 'bad.c'), 'w').write('int broken( { return }\n')
+    open(os.path.join(d, 'late.c'), 'w').write('void f(void) { 1 = 2; }\n')
+    for (tag, args, outs, failing) in [('c-bad', ['-c', 'bad.c'], ['bad.o'], True), ('c-late', ['-c', 'late.c'], ['late.o'], True), ('S-bad', ['-S', 'bad.c'], ['bad.s'], True),
+                                       ('link-good-bad', ['-o', 'prog', 'good.c', 'bad.c'], ['prog'], True), ('c-good-bad', ['-c', 'good.c', 'bad.c'], ['bad.o'], True),
+                                       ('c-good', ['-c', 'good.c'], ['good.o'], False), ('link-good', ['-o', 'prog2', 'good.c'], ['prog2'], False)]:
+        for o in outs:
+            if os.path.exists(os.path.join(d, o)):
+                os.unlink(os.path.join(d, o))
+        rc, so, se = core.sh(['env', '--ignore-signal=CHLD', cc] + args, cwd=d, timeout=120)
+        ctx.evaluations += 1
+        ctx.count('sigchld_ignored_runs')
+        ctx.saw(('sigchld-ignored', tag))
+        present = [o for o in outs if os.path.exists(os.path.join(d, o))]
+        files = {'scenario.json': __import__('json').dumps({'args': args, 'rc': rc, 'outputs_present': present, 'stderr': se.decode('utf-8', 'replace')[-300:]})}
+        script = 'printf "int broken( { return }\\n" > bad.c; env --ignore-signal=CHLD $CHIBICC -c bad.c; rc=$?; [ $rc -ne 0 ] && [ ! -e bad.o ] && exit 0; exit 1'
+        if failing and (rc == 0 or present):
+            ctx.violation('C14|sigchld-ignored|%s|%s' % (tag, 'exit0' if rc == 0 else 'output-created'), 'with SIGCHLD ignored `chibicc %s` exits %s and leaves %s' % (' '.join(args), rc, present or 'nothing'),
+                          files=files, script=script)
+        if not failing and rc == 0 and not present:
+            ctx.violation('C14|sigchld-ignored|%s|exit0-without-output' % tag, 'exit 0 but %s missing' % outs, files=files, script=script)
+
+
 def run(ctx):
     cc = ctx.build('plain')
     work = ctx.tmpdir('c14')
@@ -210,6 +243,7 @@ def run(ctx):
         for nf in nat:
             sentinel = (sid % 2 == 0) and nf[0] not in ('odir-missing', 'o-under-file')
             scen.append((sid, cc, work, mode, combo, with_o, None, nf, sentinel)); meta[sid] = (sname, 'natural', nf, sentinel, steps, outs, final); sid += 1
+    sigchld_cases(ctx, cc, work)
     results = core.pmap(run_scenario, scen, chunksize=4)
     for r in results:
         sname, kind, info, sentinel, steps, outs, final = meta[r['sid']]
